@@ -20,8 +20,13 @@ K_DEREF_MUT = "<GenericArray<$0,$1> as core::ops::DerefMut>::deref_mut"
 
 
 def is_view(cs):
-    if cs.fn in ("GenericArray::<T, N>::as_slice", "GenericArray::<T, N>::as_mut_slice"):
+    if cs.key in (K_AS_SLICE, K_AS_MUT_SLICE):
         return True
+    if cs.key == "GenericArray<$0,$1>::len":
+        return True  # modelled constant N (spec checked by rules.check_views)
+    if cs.fn.startswith("core::ptr::const_ptr::<impl *const T>::") or cs.fn.startswith("core::ptr::mut_ptr::<impl *mut T>::"):
+        if cs.ret is not None and cs.ret[0] == "P":
+            return True  # pointer arithmetic / casts are carried by the pointer value
     if cs.fn in ("core::ops::Deref::deref", "core::ops::DerefMut::deref_mut"):
         t = cs.targs[0] if cs.targs else None
         if t is not None and (is_ga(t) or (t.get("k") == "adt" and t["def"] == "core::mem::ManuallyDrop")):
@@ -100,6 +105,12 @@ def check_views(ctx, cfg, rule="C02.V"):
     """Premise shared by several properties: the four view constructors return exactly
     (address of self, N elements).  Engine: abstract interpretation of their bodies."""
     ok = True
+    b = ctx.body(cfg, "GenericArray<$0,$1>::len", rule)
+    if b is not None:
+        a = ctx.analysis(cfg, "GenericArray<$0,$1>::len")
+        n = a.tenv.length({"k": "param", "n": b["generics"][1]["n"]})
+        good = bool(a.returns) and all(r["val"] == ("I", n) for r in a.returns)
+        ctx.ob(rule, "GenericArray<$0,$1>::len", good, "returns %s; expected N (the model used at call sites)" % ", ".join(vstr(r["val"]) for r in a.returns), at=b["at"], cfg=cfg)
     for key in (K_AS_SLICE, K_AS_MUT_SLICE, K_DEREF, K_DEREF_MUT):
         b = ctx.body(cfg, key, rule)
         if b is None:
@@ -116,3 +127,72 @@ def check_views(ctx, cfg, rule="C02.V"):
             ", ".join(vstr(r["val"]) for r in rets), n, "; unexpected calls " + ",".join(extra) if extra else ""), at=b["at"], cfg=cfg)
         ok = ok and st == PROVED
     return ok
+
+
+# ---- lifetime / mutability linkage of a signature (engine F) ---------------------------------
+
+def _regions(ty, out, under_mut=None, db=None, impl=None, depth=0):
+    """Collect (region, how) for every region occurrence in a type. how: 'mut' | 'shared' | 'arg'."""
+    if ty is None or depth > 12:
+        return
+    k = ty.get("k")
+    if k == "ref":
+        out.append((ty["r"], "mut" if ty["mut"] else "shared"))
+        _regions(ty["t"], out, db=db, impl=impl, depth=depth + 1)
+    elif k == "ptr" or k == "slice":
+        _regions(ty["t"], out, db=db, impl=impl, depth=depth + 1)
+    elif k == "array":
+        _regions(ty["t"], out, db=db, impl=impl, depth=depth + 1)
+    elif k == "tuple":
+        for x in ty["ts"]:
+            _regions(x, out, db=db, impl=impl, depth=depth + 1)
+    elif k == "adt":
+        for x in ty["args"]:
+            if x.get("k") == "region":
+                out.append((x["s"], "arg"))
+            else:
+                _regions(x, out, db=db, impl=impl, depth=depth + 1)
+    elif k == "alias":
+        # resolve an associated type of the enclosing impl
+        if impl is not None:
+            name = ty["def"].split("::")[-1]
+            for it in impl.get("items", []):
+                if it["name"] == name and "ty" in it:
+                    _regions(it["ty"], out, db=db, impl=impl, depth=depth + 1)
+                    return
+        for x in ty["args"]:
+            if x.get("k") == "region":
+                out.append((x["s"], "arg"))
+            else:
+                _regions(x, out, db=db, impl=impl, depth=depth + 1)
+
+
+def lifetime_linkage(db, body):
+    """Every region of the return type occurs in an input type, is not 'static, and a `&mut` output region
+    occurs in the inputs as `&mut` (or as a lifetime argument of a type, e.g. IterMut<'a, T>).
+    Returns (status, detail)."""
+    sig = body.get("sig")
+    if sig is None:
+        return None, "no signature"
+    impl = None
+    if "impl" in body:
+        for i in db.impls:
+            if i["path"] == body["impl"]:
+                impl = i
+    rin, rout = [], []
+    for t in sig["inputs"]:
+        _regions(t, rin, db=db, impl=impl)
+    _regions(sig["output"], rout, db=db, impl=impl)
+    if not rout:
+        return None, "returns no reference"
+    in_any = {r for r, _ in rin}
+    in_mut = {r for r, how in rin if how in ("mut", "arg")}
+    bad = []
+    for r, how in rout:
+        if "static" in r:
+            bad.append("%s output is 'static" % how)
+        elif r not in in_any:
+            bad.append("output region %s does not occur in any input" % r.split("::")[-1])
+        elif how == "mut" and r not in in_mut:
+            bad.append("&mut output derives from a shared input region")
+    return (not bad), ("; ".join(bad) if bad else "output regions %d, all tied to inputs" % len(rout))
